@@ -84,6 +84,9 @@ def check(repo, rep, tier):
     rep.rule('R16.4', 'what the beam admitted stays available: the search expands every accepted entry and stops only for its budget, its n-best quota or an empty agenda')
     rc.r_expansion_unconditional(m, rep, 'R16.4')
     rp.r_config_plumbing(repo, rep, 'R16.3')
+    from .c11 import r_chunks, r_gather
+    r_chunks(repo, rep, 'R16.3')           # the beam of a sentence is taken over that sentence's own rows: the result handed back for sentence i is the one searched on its matrices
+    r_gather(repo, rep, 'R16.3')
     rp.r_score_buffers(repo, rep, 'R16.1')     # the ranks and probabilities the beam is taken over are those of the caller's rows: the matrices are read with the layout they really have
     r_cli_flags(repo, rep)
     need = ['beta', 'use_beta', 'pruning_size']
